@@ -252,6 +252,9 @@ def exec_decompiled(src):
     log, stub = make_world()
 
     def imp(name, globals=None, locals=None, fromlist=(), level=0):
+        if level:
+            # a relative import names a sibling of the (non-existent) enclosing package, not the module the VM imports
+            raise ImportError("attempted relative import with no known parent package")
         m = types.ModuleType(name)
         for n in fromlist or ():
             log.append(("import", "builtins" if name in BUILTIN_FAMILY else name, n))
